@@ -195,6 +195,25 @@ def features(db, fn):
                     names = {x["n"].split("::")[-1] for x in walk(n["c"]) if x.get("k") == "ref" and x.get("dk") == "enumc"}
                     if names == {"SC_static"} and any(x.get("k") == "continue" for x in walk(n["then"])):
                         feats["M:static-skip"] = True
+            # a const member (no initialiser) deletes the implicit default constructor: the member loop looks at the
+            # member's constness (as_const_type()) and returns false on some path from it
+            consts = [c for c in walk(lp["body"]) if c.get("k") == "call" and callee_short(c) == "as_const_type"]
+            if consts:
+                def is_const_member(atom, truth):
+                    cc = G.cmp_atom(atom)
+                    if not cc:
+                        return False
+                    op, a, b = cc
+                    o = op if truth else G.NEG[op]
+                    for x, y in ((a, b), (b, a)):
+                        if x is not None and x.get("k") == "call" and callee_short(x) == "as_const_type" and y is not None and y.get("k") == "nullp":
+                            return o == "!="
+                    return False
+                e = G.edges_where(fn, is_const_member)
+                rets_false = [r for r in walk(lp["body"]) if r.get("k") == "ret" and const_int(r.get("e")) == 0 and G.gated(fn, r, e)]
+                feats["M:const-without-initializer"] = bool(rets_false)
+            inits = [n for n in walk(lp["body"]) if n.get("k") == "if" and any((field_of(x) or "").endswith("CPPInstance::_initializer") for x in walk(n["c"])) and any(x.get("k") == "continue" for x in walk(n["then"]))]
+            feats["M:initializer-skip"] = bool(inits)
     # delegation
     for c in fn.walk():
         if c.get("k") == "call" and c.get("f", "").startswith(S + "is_") and callee_short(c) != short and callee_short(c) != "is_abstract":
@@ -372,6 +391,50 @@ def special_member_finders(ctx):
                    "X(const X&, int = 0) is a copy constructor too: %s" % ("the flag is NOT restricted to one-parameter members" if not only_one else "the flag is set only behind `size() == 1`, so such a constructor is missed and an implicit one is synthesised next to it"))
 
 
+def declarations_left_intact(ctx):
+    """R10.5: the trait predicates read the parsed declarations (a member's _initializer decides whether it needs a
+    default constructor of its own).  The generator side may not leave them altered: an assignment to
+    CPPInstance::_initializer outside cppparser is undone, from a saved copy, on every path to the function's exit."""
+    db = ctx.db
+    ctx.rule("R10.5", "outside cppparser, every assignment to a parsed declaration's _initializer is followed on every path to the exit by an assignment restoring the value saved before (the builder may print a member without its default value, it may not forget the value)")
+    n = 0
+    for f in db.functions:
+        if "/interrogate/" not in f.file:
+            continue
+        writes = []
+        for x in f.walk():
+            t = assigned_target(x)
+            if t and (field_of(t[0]) or "") == "CPPInstance::_initializer":
+                writes.append((x, t))
+        if not writes:
+            continue
+        cfg = f.cfg
+        saved = set()
+        for st in f.walk():
+            if st.get("k") == "decls":
+                for d in st["d"]:
+                    if d.get("init") is not None and (field_of(strip_casts(peel(d["init"]))) or "") == "CPPInstance::_initializer":
+                        saved.add(d["d"])
+        restores = [x for x, t in writes if (local_ref(t[1]) or {}).get("d") in saved]
+        clobbers = [x for x, t in writes if x not in restores]
+        rblocks = [cfg.locate(x)[0] for x in restores if cfg.locate(x) is not None]
+        for x in clobbers:
+            n += 1
+            lx = cfg.locate(x)
+            ok = False
+            if lx is not None:
+                same_block_later = any(cfg.locate(r)[0] == lx[0] and cfg.locate(r)[1] > lx[1] for r in restores if cfg.locate(r) is not None)
+                ok = same_block_later
+                if not ok:
+                    seen = set()
+                    for s0 in cfg.blocks[lx[0]].succs:
+                        if s0 is not None:
+                            seen |= cfg.reachable(s0, cut_blocks=rblocks)
+                    ok = bool(rblocks) and cfg.exit not in seen
+            ctx.ob("R10.5", "%s|_initializer|restored" % f.name, ok, f.loc(x), "`%s` is %srestored from a saved copy before the function returns" % (show(x)[:50], "" if ok else "NOT "))
+    ctx.floor("R10.5", "assignments to a declaration's _initializer in the generators", n, 2)
+
+
 def override_matching(ctx):
     """R10.4: abstractness and polymorphism rest on get_virtual_funcs()/get_pure_virtual_funcs(), which match a member
     against an inherited virtual with CPPFunctionType::match_virtual_override().  `override` and `final` are not part of
@@ -462,6 +525,9 @@ def run(ctx):
         calls = [c for c in f.walk() if c.get("k") == "call" and callee_short(c) == "is_abstract"]
         ctx.ob("R10.1", "%s(min_vis)|X:not-for-sub-objects" % pname, not calls, f.loc(calls[0]) if calls else f.loc(),
                "the overload that also judges base-class sub-objects %s" % ("does not test is_abstract()" if not calls else "tests is_abstract(): a concrete class derived from an abstract base is judged non-constructible"))
+
+    # ------------------------------------------------------------ R10.5
+    declarations_left_intact(ctx)
 
     # ------------------------------------------------------------ R10.3
     special_member_finders(ctx)
